@@ -326,11 +326,18 @@ def _sample_worker(job):
             st.one_of(st.none(), st.sampled_from(prefixes)),
         )
     elif kind == "isin":
-        strat = st.builds(
+        plain = st.builds(
             lambda p, b: {"kind": "isin", "base": p + b},
             st.sampled_from(prefixes),
             st.text(alphabet=ALNUM, min_size=9, max_size=9),
         )
+        # national parts as issuers build them: two padding zeros and seven characters (GB, IE, ...), all digits
+        padded = st.builds(
+            lambda p, b: {"kind": "isin", "base": p + "00" + b},
+            st.sampled_from([p for p in ["GB", "IE", "GB", "JE", "IM", "US", "DE"] if p in prefixes] or prefixes[:1]),
+            st.one_of(st.text(alphabet=ALNUM, min_size=7, max_size=7), st.text(alphabet="0123456789", min_size=7, max_size=7)),
+        )
+        strat = st.one_of(plain, plain, padded)
     elif kind == "garbage":
         strat = st.builds(
             lambda a, junk, pos: {"kind": "garbage", "base": "", "text": (a[:pos] + junk + a[pos:])[:12]},
